@@ -20,94 +20,65 @@ theorem andScan_empty_left (x : Scan) : andScan .empty x = .empty := by
 theorem andScan_empty_right (x : Scan) : andScan x .empty = .empty := by
   cases x <;> scan_kinds
 
+theorem unsat_conjunct_tree {c e : Expr} (hc : Conjunct c e) (h : optimizeExpr c = .empty) :
+    andTree e = .empty ∨ emptyPair (leafTypes e) = true := by
+  induction hc with
+  | self =>
+    rw [optimizeExpr_eq] at h
+    cases hp : emptyPair (leafTypes c) with
+    | true => exact Or.inr rfl
+    | false => simp [hp] at h; exact Or.inl h
+  | andL _ ih =>
+    rcases ih with ih | ih
+    · left; rw [andTree_and, ih, andScan_empty_left]
+    · right; rw [leafTypes_and]; exact emptyPair_sublist (List.sublist_append_left _ _) ih
+  | andR _ ih =>
+    rcases ih with ih | ih
+    · left; rw [andTree_and, ih, andScan_empty_right]
+    · right; rw [leafTypes_and]; exact emptyPair_sublist (List.sublist_append_right _ _) ih
+  | kwAndL _ ih =>
+    rcases ih with ih | ih
+    · left; rw [andTree_kwAnd, ih, andScan_empty_left]
+    · right; rw [leafTypes_kwAnd]; exact emptyPair_sublist (List.sublist_append_left _ _) ih
+  | kwAndR _ ih =>
+    rcases ih with ih | ih
+    · left; rw [andTree_kwAnd, ih, andScan_empty_right]
+    · right; rw [leafTypes_kwAnd]; exact emptyPair_sublist (List.sublist_append_right _ _) ih
+
 /-- `false` (or any conjunct already inferred EMPTY, such as `key < ''` or a nested
     unsatisfiable conjunction) anywhere in the conjunction: nothing is read -/
 theorem unsat_conjunct {c e : Expr} (hc : Conjunct c e) (h : optimizeExpr c = .empty) :
     optimizeExpr e = .empty := by
-  induction hc with
-  | self => exact h
-  | andL _ ih => simp only [optimizeExpr, ih, andScan_empty_left]
-  | andR _ ih => simp only [optimizeExpr, ih, andScan_empty_right]
-  | kwAndL _ ih => simp only [optimizeExpr, ih, andScan_empty_left]
-  | kwAndR _ ih => simp only [optimizeExpr, ih, andScan_empty_right]
+  rw [optimizeExpr_eq]
+  rcases unsat_conjunct_tree hc h with h | h
+  · rw [h]; split <;> rfl
+  · simp [h]
 
 theorem unsat_false {e : Expr} {p : Nat} {d : Bytes} (hc : Conjunct (.bool p d false) e) :
     optimizeExpr e = .empty :=
-  unsat_conjunct hc (by simp [optimizeExpr])
+  unsat_conjunct hc (by simp [optimizeExpr, infer, Conj.single])
 
-/-- the conjuncts of the `&` / `and` spine, left to right -/
+/-- the conjuncts of the `&` / `and` spine (its leaves, whatever the nesting), left to right -/
 def conjuncts : Expr → List Expr
   | .binop _ .and l r => conjuncts l ++ conjuncts r
   | .binop _ .kwAnd l r => conjuncts l ++ conjuncts r
   | e => [e]
 
-/-- the scan types of the conjuncts that pin the key (the others are FULL: predicates on the
-    value, negations, …) -/
-def keyScans (e : Expr) : List Scan :=
-  ((conjuncts e).map optimizeExpr).filter (fun s => decide (s ≠ .full))
+theorem isAnd_false_of {e : Expr} (h1 : ∀ p l r, e = .binop p .and l r → False)
+    (h2 : ∀ p l r, e = .binop p .kwAnd l r → False) : isAnd e = false := by
+  cases e with
+  | binop p op l r =>
+    cases op <;> simp [isAnd]
+    · exact h1 _ _ _ rfl
+    · exact h2 _ _ _ rfl
+  | _ => simp [isAnd]
 
-theorem keyScans_and (p : Nat) (l r : Expr) :
-    keyScans (.binop p .and l r) = keyScans l ++ keyScans r := by
-  simp [keyScans, conjuncts]
-
-theorem keyScans_kwAnd (p : Nat) (l r : Expr) :
-    keyScans (.binop p .kwAnd l r) = keyScans l ++ keyScans r := by
-  simp [keyScans, conjuncts]
-
-/-- with at most two key conjuncts, the other conjuncts disappear: the inferred type is that of
-    the key conjunct, or the combination of the two -/
-theorem keyScans_fold (e : Expr) :
-    (keyScans e = [] → optimizeExpr e = .full) ∧
-    (∀ s, keyScans e = [s] → optimizeExpr e = s) ∧
-    (∀ s1 s2, keyScans e = [s1, s2] → optimizeExpr e = andScan s1 s2) := by
+/-- `conjunctScanTypes` is `optimizeExpr` of each conjunct -/
+theorem leafTypes_eq (e : Expr) : leafTypes e = (conjuncts e).map optimizeExpr := by
   fun_induction conjuncts e
-  case case1 p l r ihl ihr =>
-    rw [keyScans_and]
-    simp only [optimizeExpr]
-    refine ⟨?_, ?_, ?_⟩
-    · intro h
-      simp only [List.append_eq_nil_iff] at h
-      rw [ihl.1 h.1, ihr.1 h.2]; rfl
-    · intro s h
-      rcases List.append_eq_singleton_iff.mp h with ⟨h1, h2⟩ | ⟨h1, h2⟩
-      · rw [ihl.1 h1, ihr.2.1 s h2, andScan_full_left]
-      · rw [ihl.2.1 s h1, ihr.1 h2, andScan_full_right]
-    · intro s1 s2 h
-      rcases List.append_eq_cons_iff.mp h with ⟨h1, h2⟩ | ⟨t, h1, h2⟩
-      · rw [ihl.1 h1, ihr.2.2 s1 s2 h2, andScan_full_left]
-      · rcases List.append_eq_singleton_iff.mp h2.symm with ⟨h3, h4⟩ | ⟨h3, h4⟩
-        · subst h3
-          rw [ihl.2.1 s1 h1, ihr.2.1 s2 h4]
-        · subst h3
-          rw [ihl.2.2 s1 s2 h1, ihr.1 h4, andScan_full_right]
-  case case2 p l r ihl ihr =>
-    rw [keyScans_kwAnd]
-    simp only [optimizeExpr]
-    refine ⟨?_, ?_, ?_⟩
-    · intro h
-      simp only [List.append_eq_nil_iff] at h
-      rw [ihl.1 h.1, ihr.1 h.2]; rfl
-    · intro s h
-      rcases List.append_eq_singleton_iff.mp h with ⟨h1, h2⟩ | ⟨h1, h2⟩
-      · rw [ihl.1 h1, ihr.2.1 s h2, andScan_full_left]
-      · rw [ihl.2.1 s h1, ihr.1 h2, andScan_full_right]
-    · intro s1 s2 h
-      rcases List.append_eq_cons_iff.mp h with ⟨h1, h2⟩ | ⟨t, h1, h2⟩
-      · rw [ihl.1 h1, ihr.2.2 s1 s2 h2, andScan_full_left]
-      · rcases List.append_eq_singleton_iff.mp h2.symm with ⟨h3, h4⟩ | ⟨h3, h4⟩
-        · subst h3
-          rw [ihl.2.1 s1 h1, ihr.2.1 s2 h4]
-        · subst h3
-          rw [ihl.2.2 s1 s2 h1, ihr.1 h4, andScan_full_right]
-  case case3 e h1 h2 =>
-    have hc : keyScans e = if optimizeExpr e = .full then [] else [optimizeExpr e] := by
-      unfold keyScans
-      rw [conjuncts]
-      · by_cases hf : optimizeExpr e = .full <;> simp [hf]
-      · exact h1
-      · exact h2
-    rw [hc]
-    by_cases hf : optimizeExpr e = .full <;> simp [hf]
+  case case1 ihl ihr => rw [leafTypes_and, ihl, ihr, List.map_append]
+  case case2 ihl ihr => rw [leafTypes_kwAnd, ihl, ihr, List.map_append]
+  case case3 e h1 h2 => simp [leafTypes_leaf (isAnd_false_of h1 h2)]
 
 /-! ### the face-unsatisfiable pairs -/
 
@@ -141,17 +112,34 @@ inductive FaceUnsat : Scan → Scan → Prop
       ((∃ x y, b = some x ∧ c = some y ∧ x < y) ∨ (∃ x y, d = some x ∧ a = some y ∧ x < y)) →
       FaceUnsat (.range a b) (.range c d)
 
-/-- `unsat_reads_nothing`: a conjunction whose key conjuncts are exactly two, of a
-    face-unsatisfiable shape — among any number of conjuncts that do not constrain the key, in
-    any nesting — is planned EMPTY.  (`false` as a conjunct: `unsat_false`, with any other
-    conjuncts.) -/
-theorem unsat_reads_nothing {e : Expr} {s1 s2 : Scan} (hk : keyScans e = [s1, s2])
-    (hu : FaceUnsat s1 s2) : optimizeExpr e = .empty := by
-  rw [(keyScans_fold e).2.2 s1 s2 hk]
+theorem faceUnsat_empty {s1 s2 : Scan} (hu : FaceUnsat s1 s2) : andScan s1 s2 = .empty := by
   cases hu with
   | eqEq h => exact unsat_eq_eq h
   | prePre h1 h2 => exact unsat_pre_pre h1 h2
   | rangeRange wl wr h => exact unsat_range_range wl wr h
+
+/-- `unsat_reads_nothing` (general): if two conjuncts of the flattened `&`/`and` spine — an
+    earlier and a later one, anywhere in the nesting — have inferred scan types whose
+    intersection (`optimizeAndExpr`'s own combination of the two) is EMPTY, the whole
+    conjunction is planned EMPTY, whatever the other conjuncts are. -/
+theorem unsat_reads_nothing (e : Expr) {s1 s2 : Scan}
+    (hk : [s1, s2].Sublist ((conjuncts e).map optimizeExpr)) (hu : andScan s1 s2 = .empty) :
+    optimizeExpr e = .empty := by
+  rw [optimizeExpr_eq, leafTypes_eq]
+  have : emptyPair [s1, s2] = true := by simp [emptyPair, hu, Scan.isEmpty]
+  simp [emptyPair_sublist hk this]
+
+/-- the same, naming the two conjuncts -/
+theorem unsat_conjunct_pair (e : Expr) {c1 c2 : Expr} (hk : [c1, c2].Sublist (conjuncts e))
+    (hu : andScan (optimizeExpr c1) (optimizeExpr c2) = .empty) : optimizeExpr e = .empty :=
+  unsat_reads_nothing e (hk.map optimizeExpr) hu
+
+/-- in particular for the face-unsatisfiable shapes: two different equalities, two prefixes
+    neither of which extends the other, two ranges one of which ends before the other starts -/
+theorem unsat_face (e : Expr) {s1 s2 : Scan}
+    (hk : [s1, s2].Sublist ((conjuncts e).map optimizeExpr)) (hu : FaceUnsat s1 s2) :
+    optimizeExpr e = .empty :=
+  unsat_reads_nothing e hk (faceUnsat_empty hu)
 
 /-! ### narrowing along the whole conjunction -/
 
@@ -190,50 +178,114 @@ theorem andScan_full_iff {l r : Scan} (wl : WF l) (wr : WF r) :
       | exact intersectionPrefixAndRange_ne_full wl
   · rintro ⟨rfl, rfl⟩; rfl
 
-theorem pinned_iff (e : Expr) :
-    pinned (optimizeExpr e) ↔ ∃ c ∈ conjuncts e, pinned (optimizeExpr c) := by
+/-- the tree combination pins the key exactly when some conjunct does -/
+theorem tree_pinned_iff (e : Expr) :
+    pinned (andTree e) ↔ ∃ s ∈ leafTypes e, pinned s := by
   fun_induction conjuncts e
   case case1 p l r ihl ihr =>
-    simp only [optimizeExpr, pinned, ne_eq, andScan_full_iff (wf_optimizeExpr l) (wf_optimizeExpr r),
+    simp only [andTree_and, leafTypes_and, pinned, ne_eq, andScan_full_iff (wf_andTree l) (wf_andTree r),
       List.mem_append] at *
     grind
   case case2 p l r ihl ihr =>
-    simp only [optimizeExpr, pinned, ne_eq, andScan_full_iff (wf_optimizeExpr l) (wf_optimizeExpr r),
+    simp only [andTree_kwAnd, leafTypes_kwAnd, pinned, ne_eq, andScan_full_iff (wf_andTree l) (wf_andTree r),
       List.mem_append] at *
     grind
-  case case3 e h1 h2 => simp
+  case case3 e h1 h2 =>
+    have := isAnd_false_of h1 h2
+    simp [andTree_leaf this, leafTypes_leaf this]
 
-/-- `and_narrows` along the whole conjunction: if some conjunct pins the key, the region
-    inferred for the conjunction lies within the region inferred for one pinning conjunct -/
-theorem and_narrows_conjuncts (e : Expr) (h : ∃ c ∈ conjuncts e, pinned (optimizeExpr c)) :
-    ∃ c ∈ conjuncts e, pinned (optimizeExpr c) ∧ within (optimizeExpr e) (optimizeExpr c) := by
+/-- `and_narrows` along the tree combination -/
+theorem tree_narrows (e : Expr) (h : ∃ s ∈ leafTypes e, pinned s) :
+    ∃ s ∈ leafTypes e, pinned s ∧ within (andTree e) s := by
   fun_induction conjuncts e
   case case1 p l r ihl ihr =>
-    have hp : pinned (optimizeExpr l) ∨ pinned (optimizeExpr r) := by
-      rw [pinned_iff l, pinned_iff r]
-      simp only [List.mem_append] at h
+    have hp : pinned (andTree l) ∨ pinned (andTree r) := by
+      rw [tree_pinned_iff l, tree_pinned_iff r]
+      simp only [leafTypes_and, List.mem_append] at h
       grind
-    obtain ⟨x, hx, hpx, hw⟩ := and_narrows (wf_optimizeExpr l) (wf_optimizeExpr r) hp
-    simp only [optimizeExpr, List.mem_append]
+    obtain ⟨x, hx, hpx, hw⟩ := and_narrows (wf_andTree l) (wf_andTree r) hp
+    simp only [andTree_and, leafTypes_and, List.mem_append]
     rcases hx with rfl | rfl
-    · obtain ⟨c, hc, hpc, hwc⟩ := ihl ((pinned_iff l).mp hpx)
+    · obtain ⟨c, hc, hpc, hwc⟩ := ihl ((tree_pinned_iff l).mp hpx)
       exact ⟨c, Or.inl hc, hpc, fun k hk => hwc k (hw k hk)⟩
-    · obtain ⟨c, hc, hpc, hwc⟩ := ihr ((pinned_iff r).mp hpx)
+    · obtain ⟨c, hc, hpc, hwc⟩ := ihr ((tree_pinned_iff r).mp hpx)
       exact ⟨c, Or.inr hc, hpc, fun k hk => hwc k (hw k hk)⟩
   case case2 p l r ihl ihr =>
-    have hp : pinned (optimizeExpr l) ∨ pinned (optimizeExpr r) := by
-      rw [pinned_iff l, pinned_iff r]
-      simp only [List.mem_append] at h
+    have hp : pinned (andTree l) ∨ pinned (andTree r) := by
+      rw [tree_pinned_iff l, tree_pinned_iff r]
+      simp only [leafTypes_kwAnd, List.mem_append] at h
       grind
-    obtain ⟨x, hx, hpx, hw⟩ := and_narrows (wf_optimizeExpr l) (wf_optimizeExpr r) hp
-    simp only [optimizeExpr, List.mem_append]
+    obtain ⟨x, hx, hpx, hw⟩ := and_narrows (wf_andTree l) (wf_andTree r) hp
+    simp only [andTree_kwAnd, leafTypes_kwAnd, List.mem_append]
     rcases hx with rfl | rfl
-    · obtain ⟨c, hc, hpc, hwc⟩ := ihl ((pinned_iff l).mp hpx)
+    · obtain ⟨c, hc, hpc, hwc⟩ := ihl ((tree_pinned_iff l).mp hpx)
       exact ⟨c, Or.inl hc, hpc, fun k hk => hwc k (hw k hk)⟩
-    · obtain ⟨c, hc, hpc, hwc⟩ := ihr ((pinned_iff r).mp hpx)
+    · obtain ⟨c, hc, hpc, hwc⟩ := ihr ((tree_pinned_iff r).mp hpx)
       exact ⟨c, Or.inr hc, hpc, fun k hk => hwc k (hw k hk)⟩
   case case3 e h1 h2 =>
-    simp only [List.mem_singleton, exists_eq_left] at h ⊢
+    have := isAnd_false_of h1 h2
+    simp only [andTree_leaf this, leafTypes_leaf this, List.mem_singleton, exists_eq_left] at h ⊢
     exact ⟨h, within_refl _⟩
+
+/-- `and_narrows` along the whole conjunction: if some conjunct pins the key, the region
+    inferred for the conjunction lies within the region inferred for one pinning conjunct
+    (trivially so when the pair test made it EMPTY) -/
+theorem and_narrows_conjuncts (e : Expr) (h : ∃ c ∈ conjuncts e, pinned (optimizeExpr c)) :
+    ∃ c ∈ conjuncts e, pinned (optimizeExpr c) ∧ within (optimizeExpr e) (optimizeExpr c) := by
+  rw [optimizeExpr_eq]
+  split
+  · obtain ⟨c, hc, hp⟩ := h
+    exact ⟨c, hc, hp, empty_within _⟩
+  · have h' : ∃ s ∈ leafTypes e, pinned s := by
+      obtain ⟨c, hc, hp⟩ := h
+      exact ⟨optimizeExpr c, by rw [leafTypes_eq]; exact List.mem_map_of_mem hc, hp⟩
+    obtain ⟨s, hs, hp, hw⟩ := tree_narrows e h'
+    rw [leafTypes_eq] at hs
+    obtain ⟨c, hc, rfl⟩ := List.mem_map.mp hs
+    exact ⟨c, hc, hp, hw⟩
+
+/-- the clause pins the key exactly when some conjunct does -/
+theorem pinned_iff (e : Expr) :
+    pinned (optimizeExpr e) ↔ ∃ c ∈ conjuncts e, pinned (optimizeExpr c) := by
+  have ht := tree_pinned_iff e
+  rw [leafTypes_eq] at ht
+  rw [optimizeExpr_eq]
+  cases hp : emptyPair (leafTypes e) with
+  | false =>
+    simp only [Bool.false_eq_true, ↓reduceIte]
+    rw [ht]
+    constructor
+    · rintro ⟨s, hs, hp⟩
+      obtain ⟨c, hc, rfl⟩ := List.mem_map.mp hs
+      exact ⟨c, hc, hp⟩
+    · rintro ⟨c, hc, hp⟩
+      exact ⟨_, List.mem_map_of_mem hc, hp⟩
+  | true =>
+    simp only [↓reduceIte, pinned, ne_eq, reduceCtorEq, not_false_eq_true, true_iff]
+    -- a pair that intersects to EMPTY cannot be FULL ∩ FULL
+    have hne : ¬ (leafTypes e).Pairwise (fun a b => andScan a b ≠ .empty) := by
+      rw [← emptyPair_false_iff, hp]; simp
+    by_cases hall : ∀ s ∈ leafTypes e, s = .full
+    · exfalso
+      apply hne
+      generalize leafTypes e = ls at hall
+      induction ls with
+      | nil => exact List.Pairwise.nil
+      | cons a rest ih =>
+        refine List.Pairwise.cons (fun b hb => ?_) (ih (fun s hs => hall s (List.mem_cons_of_mem _ hs)))
+        rw [hall a (List.mem_cons_self ..), hall b (List.mem_cons_of_mem _ hb)]
+        decide
+    · have : ∃ s ∈ leafTypes e, s ≠ .full := by
+        apply Classical.byContradiction
+        intro hn
+        apply hall
+        intro s hs
+        apply Classical.byContradiction
+        intro hs'
+        exact hn ⟨s, hs, hs'⟩
+      obtain ⟨s, hs, hs'⟩ := this
+      rw [leafTypes_eq] at hs
+      obtain ⟨c, hc, rfl⟩ := List.mem_map.mp hs
+      exact ⟨c, hc, hs'⟩
 
 end Kvql.Scan
